@@ -6,6 +6,7 @@ Property theorems only; helper lemmas live in `Dtn7.Lemmas.{Mtcp,Bbc,BbcFrag}`.
 import Dtn7.Model.Mtcp
 import Dtn7.Model.Bbc
 import Dtn7.Lemmas.Mtcp
+import Dtn7.Lemmas.MtcpBundles
 import Dtn7.Lemmas.Bbc
 import Dtn7.Gen.C12
 
@@ -141,12 +142,33 @@ theorem mtcp_prefix {B} (c : Codec B) (hg : Lemmas.Good c)
     (server c ((items.flatMap (encItem c)).take k)).1 <+: bundlesOf items :=
   Lemmas.server_prefix c hg hcut items k
 
+/-! ### … composed with the real bundle codec (C01): no abstract codec hypothesis left -/
+
+/-- **mtcp_stream_bundles**: for every list of bundles that the wire can carry (`Encodable`), that are valid at
+the receiver's clock and whose encoding is shorter than 2^64 bytes, and for EVERY interleaving with keep-alives,
+the server loop — reading heads and handing the stream to the real `Bundle.UnmarshalCbor` model — reports
+exactly those bundles, in order, and ends cleanly. (`cfg.strict`: the repaired decoder, as pinned by C01's facts.) -/
+theorem mtcp_stream_bundles (cfg : Dtn7.Bundle.Cfg) (hs : cfg.strict = true) (now : Nat)
+    (items : List (Item Dtn7.Bundle.Bundle)) (hP : ∀ b ∈ bundlesOf items, Bundles.Sendable cfg now b) :
+    server (Bundles.codec cfg now) (items.flatMap (encItem (Bundles.codec cfg now))) = (bundlesOf items, .eof) :=
+  Lemmas.server_stream_on (Bundles.codec cfg now) (Bundles.codec_good cfg hs now) items hP
+
+/-- **mtcp_prefix_bundles**: a connection cut after any number of bytes yields a prefix of the sent bundles.
+The one hypothesis kept explicit is that a strict prefix of a bundle's encoding is not accepted as a bundle. -/
+theorem mtcp_prefix_bundles (cfg : Dtn7.Bundle.Cfg) (hs : cfg.strict = true) (now : Nat)
+    (hcut : ∀ b, Bundles.Sendable cfg now b → ∀ k, k < (Dtn7.Bundle.serializeRaw b).length →
+      ∀ x, Dtn7.Bundle.parse cfg now ((Dtn7.Bundle.serializeRaw b).take k) ≠ .ok x)
+    (items : List (Item Dtn7.Bundle.Bundle)) (hP : ∀ b ∈ bundlesOf items, Bundles.Sendable cfg now b) (k : Nat) :
+    (server (Bundles.codec cfg now) ((items.flatMap (encItem (Bundles.codec cfg now))).take k)).1 <+: bundlesOf items :=
+  Lemmas.server_prefix_on (Bundles.codec cfg now) (Bundles.codec_good cfg hs now)
+    (fun b hb k hk x hx => hcut b hb k hk x ((Bundles.codec_parse_ok cfg now _ x).mp hx)) items hP k
+
 /-- Non-vacuity: a toy codec (one byte `b` encoded as `[b]`) satisfies the hypotheses … -/
 def toyCodec : Codec UInt8 :=
   { enc := fun b => [b], parse := fun bs => match bs with | [] => .error .eof | b :: r => .ok (b, r) }
 
 theorem toy_good : Lemmas.Good toyCodec :=
-  ⟨fun _ _ => rfl, fun _ => by simp [toyCodec], fun _ => by simp [toyCodec]⟩
+  Lemmas.Good.mk' (fun _ _ => rfl) (fun _ => by simp [toyCodec]) (fun _ => by simp [toyCodec])
 
 example : server toyCodec ([Item.keepalive, .bundle 7, .keepalive, .keepalive, .bundle 9].flatMap (encItem toyCodec)) =
     ([7, 9], .eof) := by decide
